@@ -54,6 +54,12 @@ THEOREMS = [
     "Scenic.C05.support_sound",
     "Scenic.C05.build_vecWF",
     "Scenic.C05.delayed_eval_final",
+    "Scenic.Delayed.reads_subset_required",
+    "Scenic.Delayed.evalD_local",
+    "Scenic.Delayed.delayedSpec_local",
+    "Scenic.Delayed.lifted_call_eval_final",
+    "Scenic.Delayed.kwargs_dropped_not_local",
+    "Scenic.C05.lifted_call_eval_final",
 ]
 SIDE = [
     "Scenic.C05.gen_tables_wf",
@@ -62,6 +68,7 @@ SIDE = [
     "Scenic.C05.gen_monotone_classified",
     "Scenic.C05.gen_operators_known",
     "Scenic.C05.gen_unmodelled_repairs_in_place",
+    "Scenic.C05.gen_delayed_shapes_wf",
 ]
 
 FINGERPRINTS = {
@@ -1977,13 +1984,98 @@ def classes_part(ctx, build_ok):
     return found
 
 
+
+# ------------------------------------------------------------------------------------------------ delayed arguments of lifted calls
+def delayed_job(job):
+    """one generated program with lazily evaluated (positional / keyword / nested / container) operands of lifted calls"""
+    from props import c05_delayed as D
+    S()
+    code, checks, seed, n = job
+    return D.run_program(code, checks, seed, n)
+
+
+def delayed_jobs(ctx):
+    from props import c05_delayed as D
+    jobs, infos = [], []
+    for _ in range(ctx.budget(70, 1500)):
+        code, checks, info = D.gen_program(ctx.rng)
+        jobs.append((code, checks, ctx.rng.getrandbits(31), 3))
+        infos.append(info)
+    return jobs, infos
+
+
+def _noaddr(t):
+    import re
+    return re.sub(r" at 0x[0-9a-f]+", "", t)
+
+
+def delayed_part(ctx, build_ok, jobs, infos, results):
+    """(S) programs: the value of a property given by a lifted call over lazily evaluated operands equals plain Python on
+    the *final* values of the properties it reaches, for every specifier order and with modifying specifiers;
+    (C) unit level: `_requiredProperties` of delayed values built through the real API vs `Delayed.required` on the
+    generated shapes, and the properties actually read while evaluating vs `Delayed.reads` (all must be declared)"""
+    from props import c05_delayed as D
+    found = False
+    for (code, checks, seed, n), info, res in zip(jobs, infos, results):
+        ctx.case(("delayed", code), nontrivial=True)
+        ctx.evaluations += res.get("scenes", 0) * len(checks)
+        for v in info["via"]:
+            ctx.hist("delayed_operand_via", v)
+        ctx.hist("delayed_specifier_order", info["order"] + ("+modifier" if info["modifier"] else ""))
+        ctx.hist("delayed_provider", info["provider"] + "/" + info["qprovider"])
+        vd = D.verdict(res)
+        ctx.hist("delayed_programs", "holds" if vd is None and res["stage"] == "ok" else
+                 ("rejected:" + str(res["exc"]) if vd is None else "VIOLATED:" + vd[0]))
+        if vd is not None:
+            body = code.split("requireVisible: False\n", 1)[-1]
+            if ctx.violation("delayed-argument:" + vd[0],
+                             _noaddr(vd[1]) + f"\n[specifier order {info['order']}, provider {info['provider']}, modifying specifier "
+                             f"{info['modifier']}, operands via {', '.join(info['via'])}]\n" + body,
+                             {"kind": "delayed", "program": code, "checks": [list(c) for c in checks], "seed": seed}):
+                found = True
+    # unit level
+    rng = ctx.rng
+    trees = [D.unit_tree(rng, rng.choice([1, 2, 2, 3, 3, 4])) for _ in range(ctx.budget(400, 8000))]
+    lines, reals = [], []
+    for t in trees:
+        try:
+            declared, read, out = D.unit_real(t)
+        except Exception as e:
+            ctx.hist("delayed_unit", "build-raised:" + type(e).__name__)
+            ctx.broken("correspondence", "building a delayed value through lazy_eval / distributionFunction raised", f"{t}: {type(e).__name__}: {e}"[:400])
+            continue
+        ctx.case(("delayed-unit", repr(t)), nontrivial=D.tree_is_delayed(t))
+        reals.append((t, declared, read, out))
+        lines.append("C05 dl " + " ".join(D.tree_line(t)))
+        if not set(read) <= set(declared):
+            ctx.hist("delayed_unit", "READS-UNDECLARED")
+            ctx.broken("correspondence", "a delayed value reads a property it does not declare in _requiredProperties",
+                       f"{t}: declared {declared}, read {read}")
+        else:
+            ctx.hist("delayed_unit", "declared-covers-read" if read else "not-delayed")
+    if build_ok and lines:
+        outs = ctx.driver(lines)
+        agree = 0
+        for (t, declared, read, out), ol in zip(reals, outs):
+            want = " ".join(map(str, declared)) + " | " + " ".join(map(str, sorted(D.tree_reads(t))))
+            if ol.strip() != want.strip():
+                ctx.broken("correspondence", "required properties of a delayed value: model (Delayed.required on generated shapes) vs code",
+                           f"{t}: model `{ol.strip()}`, code `{want.strip()}`")
+            else:
+                agree += 1
+        ctx.extra["delayed_unit_agree"] = f"{agree}/{len(reals)}"
+    return found
+
 # ------------------------------------------------------------------------------------------------ main
 def run(ctx):
     ctx.rule = ("cases = (expression tree, leaf distributions) pairs from a fixed regression corpus and a typed random "
                 "generator (depth <= 5; all reversible operators in both orders, identity-shaped constants, unary operators, "
                 "indexing, len, attribute access, tuple/list/Vector literals, lifted max/min with star-unpacking; 6-30% "
                 "deliberately ill-typed), each compiled as a real Scenic program and sampled 3 times; support cases = scalar "
-                "distribution forests; class cases = generated Scenic classes with self-dependent defaults; "
+                "distribution forests; class cases = generated Scenic classes with self-dependent defaults; delayed cases = generated "
+                "programs whose `with` specifiers are lifted calls over lazily evaluated operands (positional / keyword / nested / "
+                "in containers / next to random values) with the specifiers in several orders and `on` modifying the provider, plus "
+                "delayed-value trees built through the real API; "
                 "non-trivial = contains at least one random leaf; distinct by (source text, leaves)")
     ctx.assumptions += [
         "numbers are exact rationals in the model: Python's int/float/bool distinction is erased (values compared with ==), "
@@ -2007,13 +2099,22 @@ def run(ctx):
         ctx.gen_restore("SupportFormulas")
         ctx.escalated.append(f"translator tie lost (support formulas): {e}")
         ctx.notes.append(f"translator tie lost for the support formulas: {e}; relying on correspondence at thorough budget")
+    from translate import c05_delayed as c05_delayed_tr
+    try:
+        ctx.gen("DelayedShapes", c05_delayed_tr.to_lean(c05_delayed_tr.extract()))
+    except TemplateMismatch as e:
+        ctx.gen_restore("DelayedShapes")
+        ctx.escalated.append(f"translator tie lost (delayed shapes): {e}")
+        ctx.notes.append(f"translator tie lost for the delayed-value constructors of lazy_eval.py: {e}; relying on correspondence at thorough budget")
     # the real-code runs do not depend on the Lean build: start them first
     workers = Workers()
     try:
         ejobs, sjobs = expression_jobs(ctx), support_jobs(ctx)
+        djobs, dinfos = delayed_jobs(ctx)
         t0 = ctx.elapsed()
         workers.submit("expr", expr_job, ejobs)
         workers.submit("sup", sup_job, sjobs)
+        workers.submit("delayed", delayed_job, djobs)
         pr = ctx.prove(THEOREMS, side_conditions=SIDE)
         ctx.extra.setdefault("timing_s", {})["lake_build_and_audit"] = round(ctx.elapsed() - t0, 1)
         if ctx.tier == "thorough" and pr.build_ok:
@@ -2022,12 +2123,14 @@ def run(ctx):
         found = False
         eres = workers.result("expr")
         sres = workers.result("sup")
+        dres = workers.result("delayed")
         ctx.extra["timing_s"]["real_code_runs_done_after"] = round(ctx.elapsed() - t0, 1)
     finally:
         workers.close()
     found |= expression_part(ctx, pr.build_ok, ejobs, eres)
     found |= support_part(ctx, pr.build_ok, sjobs, sres)
     found |= extras_part(ctx)
+    found |= delayed_part(ctx, pr.build_ok, djobs, dinfos, dres)
     found |= classes_part(ctx, pr.build_ok)
     ctx.resolve_brokens(found)
 
@@ -2087,6 +2190,15 @@ def replay(ctx, path):
                 bad = True
             elif p[0] != "exc":
                 bad |= r[0] == "exc" or not same_ext(r, p)
+    elif kind == "delayed":
+        from props import c05_delayed as D
+        print(rep["program"].split("requireVisible: False\n", 1)[-1])
+        res = D.run_program(rep["program"], [tuple(c) for c in rep["checks"]], rep.get("seed", 0), 6)
+        vd = D.verdict(res)
+        print(res)
+        if vd is not None:
+            print(_noaddr(vd[1]))
+            bad = True
     elif kind == "class":
         import scenic
         print(rep["program"])
